@@ -252,6 +252,11 @@ class DistinctCountCheck(AbstractCheck):
         self.reset()
         self._eval()
 
+    #: Builtin functions available for count expressions.
+    _BUILTINS_FOR_EXPRESSION = {
+        function.__name__: function for function in (abs, divmod, float, int, max, min, pow, round, sum)
+    }
+
     def reset(self):
         self._distinct_value_to_count_map = {}
 
@@ -264,8 +269,9 @@ class DistinctCountCheck(AbstractCheck):
         """
         local_variables = {DistinctCountCheck._COUNT_NAME: self._distinct_count()}
         try:
-            # Only "count" can be used in the expression, in particular no builtin functions such as exit().
-            result = eval(self._expression, {"__builtins__": {}}, local_variables)
+            # Apart from "count" only mathematical functions can be used in the expression, in particular no
+            # other builtin functions such as exit().
+            result = eval(self._expression, {"__builtins__": DistinctCountCheck._BUILTINS_FOR_EXPRESSION}, local_variables)
         except Exception as message:
             raise errors.InterfaceError(
                 "cannot evaluate count expression %r: %s" % (self._expression, message), self.location_of_rule
